@@ -154,6 +154,89 @@ def case(item):
     return res
 
 
+class _RefPoint(object):
+    """What the model needs from a data point, with the outlier prior terms written down from the input files."""
+
+    def __init__(self, idx, value, lo, lo_not):
+        self.idx, self.value, self.outlier_prob, self.outlier_prob_not = idx, value, lo, lo_not
+
+
+def loaded_case(item):
+    """The density of trees over data points that come out of the real loader: the outlier prior terms of the model are
+    size * log p and size * log(1 - p) from the cluster FILE (every layout PyClone-VI and hand-written files use)."""
+    import math
+    import os
+    import shutil
+    import numpy as np
+    from phyclone.tree import FSCRPDistribution, TreeJointDistribution
+    from mc.checks import c05
+
+    layout, nsamp, p, alpha = item
+    res = {"item": item, "problems": [], "evals": 0, "worst": 0.0}
+    d = c05.scratch()
+    try:
+        samples = ["S%d" % j for j in range(nsamp)]
+        clusters = {0: ["mA", "mB"], 1: ["mC"], 2: ["mD", "mE", "mF"]}
+        rows = []
+        for k, m in enumerate(sorted(x for v in clusters.values() for x in v)):
+            for j, smp in enumerate(samples):
+                rows.append("%s\t%s\t%d\t%d\t2\t1\t2\t%r\t0.001" % (m, smp, 40 + 9 * k + 5 * j, 4 + 6 * ((k + 2 * j) % 4), 0.7 + 0.1 * j))
+        f = os.path.join(d, "in.tsv")
+        with open(f, "w") as fh:
+            fh.write(c05.HDR + "\n" + "\n".join(rows) + "\n")
+        cf = os.path.join(d, "clusters.tsv")
+        with open(cf, "w") as fh:
+            if layout == "per-mutation":
+                fh.write("mutation_id\tcluster_id\n")
+                for c, ms in clusters.items():
+                    for m in ms:
+                        fh.write("%s\t%d\n" % (m, c))
+            elif layout == "per-sample":
+                # PyClone-VI output: one row per mutation and sample, with that sample's prevalence
+                fh.write("mutation_id\tsample_id\tcluster_id\tcellular_prevalence\tcellular_prevalence_std\tcluster_assignment_prob\n")
+                for c, ms in clusters.items():
+                    for m in ms:
+                        for j, smp in enumerate(samples):
+                            fh.write("%s\t%s\t%d\t%r\t0.01\t1.0\n" % (m, smp, c, 0.2 + 0.1 * c + 0.05 * j))
+            else:  # per-sample rows that repeat identically (a file concatenated per sample without the sample columns)
+                fh.write("mutation_id\tcluster_id\n")
+                for smp in samples:
+                    for c, ms in clusters.items():
+                        for m in ms:
+                            fh.write("%s\t%d\n" % (m, c))
+        data, smp_out = c05._load(f, "beta-binomial", 3, 400.0, outlier_prob=p, cluster_file=cf)
+        data = list(data)
+        if len(data) != 3:
+            res["problems"].append("loader returned %d data points for 3 clusters" % len(data))
+            return res
+        sizes = {str(c): len(ms) for c, ms in clusters.items()}
+        ref = []
+        for dp in data:
+            sz = sizes[str(dp.name)]
+            lo, lo_not = (0.0, 0.0) if p == 0 else (sz * math.log(p), sz * math.log1p(-p))
+            ref.append(_RefPoint(dp.idx, np.asarray(dp.value), lo, lo_not))
+        td = TreeJointDistribution(FSCRPDistribution(alpha))
+        for s_ in oracle.all_states(3, outliers=True):
+            t = oracle.build(s_, data)
+            want_m = oracle.ref_log_joint(s_, ref, alpha, "marginal", data_term=oracle.exact_root_vector)
+            want_o = oracle.ref_log_joint(s_, ref, alpha, "one", data_term=oracle.exact_root_vector)
+            got = (float(td.log_p(t)), float(td.log_p_one(t)))
+            res["evals"] += 2
+            for label, g, w in (("log_p", got[0], want_m), ("log_p_one", got[1], want_o)):
+                dd = abs(g - w)
+                if dd == dd:
+                    res["worst"] = max(res["worst"], dd / (1 + abs(w)))
+                if not dd <= 1e-8 * (1 + abs(w)):
+                    res["problems"].append("loaded data (%s cluster file, %d samples, p=%g) tree %r: %s = %.12g, model = %.12g" % (layout, nsamp, p, oracle.fmt_state(s_), label, g, w))
+                    if len(res["problems"]) >= 2:
+                        return res
+    except Exception as e:
+        res["problems"].append("raised %s: %s" % (type(e).__name__, str(e)[:150]))
+    finally:
+        shutil.rmtree(d, ignore_errors=True)
+    return res
+
+
 def large_case(item):
     """Larger trees (8 and 12 clones, deep and wide, with outliers): closed-form model with the O(G^2) recursion data term."""
     par, kind, alpha, seed = item
@@ -221,7 +304,8 @@ def main(tier, seed):
     chk.rule = ("every tree over n<=4 data points incl. every outlier subset (427 trees) x alpha {0.3,1,2.5} x outlier prior {0,1e-4,0.3,heterogeneous} x data "
                 "alphabet; each tree built post-order, reversed siblings, from_dict, relabelled, in EVERY compatible SMC data order (n<=3) and via "
                 "prune-regraft; log_p, log_p_one and the fused variant vs the closed-form model with the literal-sum data term; all pairs of trees for "
-                "==/hash; non-trivial = tree with >= 2 clones or an outlier")
+                "==/hash; every tree over 3 clustered data points produced by the real loader from input + cluster files in three layouts x 1-3 samples "
+                "x outlier prior {0,1e-4,0.3} (outlier terms of the model taken from the files); non-trivial = tree with >= 2 clones or an outlier")
     chk.assumptions = ["reference model: mc/oracle.py ref_log_joint (closed formulas from the statement; the 1/1000-per-extra-root penalty includes its normaliser)",
                        "tolerance 1e-8 relative", "grid size 3 so the data term is the literal sum"]
     items = []
@@ -264,6 +348,16 @@ def main(tier, seed):
         chk.worst("worst_relative_error", r["worst"])
         for pr in r["problems"][:2]:
             chk.violation({"sub": "density-large", "what": pr.split(":")[1].split("=")[0].strip()[:30] if "=" in pr else pr[:30]}, {"problem": pr}, {"large": [list(r["item"][0]), r["item"][1], r["item"][2], r["item"][3]]})
+    loaded = [(lay, ns_, p_, a) for lay in ("per-mutation", "per-sample", "repeated") for ns_ in (1, 2, 3) for p_ in (0.0, 1e-4, 0.3) for a in ((1.0,) if tier == "quick" else ALPHAS)]
+    for r in pool_imap(loaded_case, loaded, chunksize=1):
+        chk.evaluations += r["evals"]
+        chk.transitions += r["evals"]
+        chk.states.add(("loaded",) + tuple(r["item"][:3]))
+        chk.nontrivial.add(("loaded",) + tuple(r["item"]))
+        chk.worst("worst_relative_error", r["worst"])
+        for pr in r["problems"][:2]:
+            chk.violation({"sub": "density-loaded", "layout": r["item"][0], "samples": r["item"][1], "what": pr.split(":")[0][:30] if "=" not in pr else pr.split(":")[-1].split("=")[0].strip()},
+                          {"problem": pr}, {"loaded": list(r["item"])})
     for n in ((2, 3) if tier == "quick" else (2, 3, 4)):
         probs, pairs = identity_cross(n)
         chk.evaluations += pairs
@@ -278,6 +372,10 @@ def replay(path):
     rp = body["replay"]
     if "large" in rp:
         r = large_case((tuple(rp["large"][0]), rp["large"][1], rp["large"][2], rp["large"][3]))
+        print(r["problems"])
+        return 1 if r["problems"] else 0
+    if "loaded" in rp:
+        r = loaded_case(tuple(rp["loaded"]))
         print(r["problems"])
         return 1 if r["problems"] else 0
     if "identity_n" in rp:
